@@ -1078,7 +1078,10 @@ def parse(
             conn.commit()
         try:
             tree = pickle.loads(pickled_data)
-        except pickle.UnpicklingError:
+        except Exception:
+            # A damaged entry does not only raise UnpicklingError: a truncated one
+            # raises EOFError, one referring to a class that no longer exists raises
+            # AttributeError or ImportError, and so on.
             logger.warning(f"Model with hash '{txt_hash}' ({pymoca_version}) failed to unpickle")
     else:
         logger.debug(f"Model with hash '{txt_hash}' ({pymoca_version}) not in cache")
